@@ -66,6 +66,7 @@ extern int64_t vf_seq;   /* number of events so far */
 uint64_t vf_clock_ns(void);
 extern int64_t vf_clock_now;
 void vf_clock_advance(uint64_t d);
+void vf_sleep_ns(uint64_t ns);   /* std::this_thread::sleep_for in the model: advances the symbolic clock */
 
 /* ---- harness configuration table: written by the C++ harness, read by the C oracle ---- */
 #ifndef VF_CFG_N
@@ -76,6 +77,7 @@ void vf_clock_advance(uint64_t d);
 #endif
 extern int64_t vf_cfg[VF_CFG_N][VF_CFG_M];
 void vf_cfg_set(uint32_t which, uint32_t idx, uint64_t val);
+uint64_t vf_cfg_get(uint32_t which, uint32_t idx);
 
 void vf_global_ctors(void);
 #ifdef __cplusplus
